@@ -217,7 +217,7 @@ func TestVerif_C22(t *testing.T) {
 		sels := []string{"prefer", "az", "azrp"}
 		clientAZs := []string{"x", ""}
 		azAlpha := []string{"x", "y", ""}
-		maxN := vrun.Pick(r, 6, 9)
+		maxN := vrun.Pick(r, 6, 12)
 		r.Bounds["max_enumerated_len"] = maxN
 		r.Bounds["az_alphabet"] = azAlpha
 		r.Bounds["client_az"] = clientAZs
